@@ -505,7 +505,7 @@ def main():
     assumed_contracts = sorted(k for k in used_keys if k not in all_proved)
     proved_elsewhere = sorted(k for k in used_keys if k in all_proved and k not in proved_keys)
     trusted_base = []
-    trusted_base.append("kernel/library axioms A1-A9 of DESIGN.md 4.2, stated as postconditions of external_body stubs in /verif/prelude")
+    trusted_base.append("kernel/library axioms A0-A10 (incl. A5b) of DESIGN.md 4.2, stated as postconditions of external_body stubs in /verif/prelude")
     trusted_base.append("Verus 0.2026.09.13 + Z3 (SMT back end); machine integers are Verus fixed-width types (overflow is an obligation)")
     trusted_base.append("vx rewrite rules fired (DESIGN.md section 3): " + json.dumps(rules_fired, sort_keys=True))
     trusted_base.append("trusted constructs in the generated units (mechanical scan): " + json.dumps(trusted_scan, sort_keys=True))
